@@ -140,6 +140,21 @@ Theorem sync_wrapping_refuted :
   arec_sync mem file = mk 1 1 pA 1 0 20.
 Proof. exact sync_wrapping_refuted_lemma. Qed.
 
+(* the cache file's formatter: write() replaces the file with the in-memory cache -- also with an EMPTY one
+   (`first` wipes a previous network's cache), so loading after a write returns what was written *)
+Theorem cache_write_then_read : forall st fs, fs_get (store_write st fs) (st_cache_path st) = Some (st_mem st).
+Proof. exact write_then_read_lemma. Qed.
+
+Theorem cache_write_empty_wipes : forall cfg now st fs,
+  st_mem st = [] -> st_cache_path st = st_cfg_path st -> store_load cfg now st (store_write st fs) = Some [].
+Proof. exact write_empty_wipes_lemma. Qed.
+
+Theorem write_skip_empty_refuted :
+  exists st fs, st_mem st = [] /\
+    fs_get (store_write_skip_empty st fs) (st_cache_path st) <> Some [] /\
+    fs_get (store_write st fs) (st_cache_path st) = Some [].
+Proof. exact write_skip_empty_refuted_lemma. Qed.
+
 Theorem no_panic_registry_load : forall (A : Type) (parse : string -> option A) f,
   registry_load parse f <> Panic.
 Proof. exact @no_panic_registry_load_lemma. Qed.
